@@ -34,6 +34,11 @@ theorem refine_arrive (s : St) (sp : Sp) (w0 : Nat) (h : R s sp) :
       have := hseen.mpr (by rw [hx]; exact fun hc => W.noConfusion hc); simpa using this
     simp only [hs, if_true]
     exact ⟨hl, hw⟩
+  | gone =>
+    have hs : s.seen.contains w0 = true := by
+      have := hseen.mpr (by rw [hx]; exact fun hc => W.noConfusion hc); simpa using this
+    simp only [hs, if_true]
+    exact ⟨hl, hw⟩
   | done o =>
     have hs : s.seen.contains w0 = true := by
       have := hseen.mpr (by rw [hx]; exact fun hc => W.noConfusion hc); simpa using this
@@ -68,6 +73,7 @@ theorem refine_lookup (s : St) (sp : Sp) (op w0 : Nat) (h : R s sp) :
     | waiting k => exact absurd hx (hnw k)
     | absent => exact ⟨hl, hw⟩
     | expiring => exact ⟨hl, hw⟩
+    | gone => exact ⟨hl, hw⟩
     | done o => exact ⟨hl, hw⟩
 
 theorem refine_take (s : St) (sp : Sp) (w0 : Nat) (h : R s sp) :
@@ -99,6 +105,7 @@ theorem refine_take (s : St) (sp : Sp) (w0 : Nat) (h : R s sp) :
     | waiting k => exact absurd hx (hnw k)
     | absent => exact ⟨hl, hw⟩
     | expiring => exact ⟨hl, hw⟩
+    | gone => exact ⟨hl, hw⟩
     | done o => exact ⟨hl, hw⟩
 
 theorem refine_send (s : St) (sp : Sp) (w0 : Nat) (h : R s sp) :
@@ -135,6 +142,7 @@ theorem refine_send (s : St) (sp : Sp) (w0 : Nat) (h : R s sp) :
     | expiring => exact absurd hx hnw
     | absent => exact ⟨hl, hw⟩
     | waiting k => exact ⟨hl, hw⟩
+    | gone => exact ⟨hl, hw⟩
     | done o => exact ⟨hl, hw⟩
 
 
@@ -193,33 +201,35 @@ theorem finish_waiting (s : St) (w0 k : Nat) (a : Bool) (h : Rw s w0 (.waiting k
   simp [h5]
 
 /-- a write that is no longer waiting is not touched by a verdict that commits late -/
-theorem finish_late (s : St) (w0 : Nat) (a : Bool) (x : W) (hx : x = .expiring ∨ ∃ o, x = .done o)
+theorem finish_late (s : St) (w0 : Nat) (a : Bool) (x : W) (hx : x = .expiring ∨ x = .gone ∨ ∃ o, x = .done o)
     (h : Rw s w0 x) : Rw (finish Cfg.clean s w0 a) w0 x := by
   have harm : w0 ∉ s.armed := by
-    rcases hx with rfl | ⟨o, rfl⟩
+    rcases hx with rfl | rfl | ⟨o, rfl⟩
+    · exact h.2.2.1
     · exact h.2.2.1
     · exact h.2.2.1
   have hpen : w0 ∉ s.pending := by
-    rcases hx with rfl | ⟨o, rfl⟩
+    rcases hx with rfl | rfl | ⟨o, rfl⟩
+    · exact h.2.1
     · exact h.2.1
     · exact h.2.1
   rw [finish_unarmed s w0 a harm]
   refine Rw_same s _ w0 x ⟨Iff.rfl, ?_, ?_, Iff.rfl, rfl⟩ (Or.inr hx) ?_ h
   · simp [hpen]
   · simp [harm]
-  · intro hab; rcases hx with rfl | ⟨o, rfl⟩ <;> cases hab
+  · intro hab; rcases hx with rfl | rfl | ⟨o, rfl⟩ <;> cases hab
 
 /-- neither the lookup list nor the tally matters for a write that is no longer waiting -/
-theorem late_frame (s s' : St) (w0 : Nat) (x : W) (hx : x = .expiring ∨ ∃ o, x = .done o)
+theorem late_frame (s s' : St) (w0 : Nat) (x : W) (hx : x = .expiring ∨ x = .gone ∨ ∃ o, x = .done o)
     (hs : s'.seen = s.seen) (hp : s'.pending = s.pending) (ha : s'.armed = s.armed) (hf : s'.fired = s.fired)
     (ho : s'.outcomes = s.outcomes) (h : Rw s w0 x) : Rw s' w0 x := by
   refine Rw_same s s' w0 x ⟨by rw [hs], by rw [hp], by rw [ha], by rw [hf], by simp only [outs, ho]⟩ (Or.inr hx) ?_ h
-  intro hab; rcases hx with rfl | ⟨o, rfl⟩ <;> cases hab
+  intro hab; rcases hx with rfl | rfl | ⟨o, rfl⟩ <;> cases hab
 
 /-- the commit of a verdict on a write that is no longer waiting changes nothing the automaton sees -/
 theorem commit_late (s : St) (sp : Sp) (op : Nat) (a : Bool) (w0 : Nat)
     (hl : sp.lookups = s.lookups) (hw : ∀ w, Rw s w (sp.st w))
-    (hlate : sp.st w0 = .expiring ∨ ∃ o, sp.st w0 = .done o) :
+    (hlate : sp.st w0 = .expiring ∨ sp.st w0 = .gone ∨ ∃ o, sp.st w0 = .done o) :
     R (if (decide (s.nCb > 1) && a) = true then
         if (bump Cfg.clean s.tally w0).2 < s.nCb then
           { s with lookups := s.lookups.filter (·.1 ≠ op), tally := some (bump Cfg.clean s.tally w0).1 }
@@ -321,9 +331,40 @@ theorem refine_commit (s : St) (sp : Sp) (op : Nat) (a : Bool) (h : R s sp) :
           exact (o1.trans (onlyAt_finish _ w0 a)).rw w hww _ (hw w)
     | expiring =>
       exact commit_late s sp op a w0 hl hw (Or.inl hx)
+    | gone =>
+      exact commit_late s sp op a w0 hl hw (Or.inr (Or.inl hx))
     | done o =>
-      exact commit_late s sp op a w0 hl hw (Or.inr ⟨o, hx⟩)
+      exact commit_late s sp op a w0 hl hw (Or.inr (Or.inr ⟨o, hx⟩))
 
+
+/-- the connection is removed: what was waiting is gone, everything else stays as it is -/
+theorem refine_drop (s : St) (sp : Sp) (h : R s sp) :
+    R (step Cfg.clean s .drop) (specStep s.nCb sp .drop) := by
+  obtain ⟨hl, hw⟩ := h
+  refine ⟨hl, fun w => ?_⟩
+  have h0 := hw w
+  simp only [step, specStep, dropW]
+  cases hx : sp.st w with
+  | absent =>
+    rw [hx] at h0
+    obtain ⟨h1, h2, h3, h4, h5, h6, h7⟩ := h0
+    exact ⟨h1, by simp, by simp, h4, h5, rfl, h7⟩
+  | waiting k =>
+    rw [hx] at h0
+    obtain ⟨h1, h2, h3, h4, h5, h6⟩ := h0
+    exact ⟨h1, by simp, by simp, h4, h5⟩
+  | expiring =>
+    rw [hx] at h0
+    obtain ⟨h1, h2, h3, h4, h5⟩ := h0
+    exact ⟨h1, by simp, by simp, h4, h5⟩
+  | gone =>
+    rw [hx] at h0
+    obtain ⟨h1, h2, h3, h4, h5⟩ := h0
+    exact ⟨h1, by simp, by simp, h4, h5⟩
+  | done o =>
+    rw [hx] at h0
+    obtain ⟨h1, h2, h3, h4, h5⟩ := h0
+    exact ⟨h1, by simp, by simp, h4, h5⟩
 
 /-- every step of the repaired member is a step of the per-write automaton -/
 theorem step_refines (s : St) (sp : Sp) (e : Ev) (h : R s sp) :
@@ -334,6 +375,7 @@ theorem step_refines (s : St) (sp : Sp) (e : Ev) (h : R s sp) :
   | commit op a => exact refine_commit s sp op a h
   | timeoutTake w => exact refine_take s sp w h
   | timeoutSend w => exact refine_send s sp w h
+  | drop => exact refine_drop s sp h
 
 theorem R_init (n : Nat) : R { nCb := n } {} := by
   refine ⟨rfl, fun w => ?_⟩
@@ -364,6 +406,7 @@ theorem outs_of_R (s : St) (sp : Sp) (h : R s sp) (w : Nat) :
   | absent => rw [hx] at this; exact this.2.2.2.2.1
   | waiting k => rw [hx] at this; exact this.2.2.2.2.1
   | expiring => rw [hx] at this; exact this.2.2.2.2
+  | gone => rw [hx] at this; exact this.2.2.2.2
   | done o => rw [hx] at this; exact this.2.2.2.2
 
 theorem mem_outcomes_iff (s : St) (w : Nat) (o : Out) : (w, o) ∈ s.outcomes ↔ o ∈ outs s w := by
@@ -382,6 +425,7 @@ def concerns (sp : Sp) (w : Nat) : Ev → Prop
   | .timeoutTake w' => w' = w
   | .timeoutSend w' => w' = w
   | .commit op _ => ∃ x, sp.lookups.find? (·.1 = op) = some (x, w)
+  | .drop => True      -- the removal of the peer's own connection concerns every write of the peer
 
 /-- an event that is not about write `w` leaves `w`'s state in the automaton untouched -/
 theorem spec_frame (n : Nat) (sp : Sp) (e : Ev) (w : Nat) (h : ¬ concerns sp w e) :
@@ -404,6 +448,7 @@ theorem spec_frame (n : Nat) (sp : Sp) (e : Ev) (w : Nat) (h : ¬ concerns sp w 
     · rename_i x w' hf
       have hne : w ≠ w' := fun hc => h ⟨x, hc ▸ hf⟩
       split <;> simp [upd, hne]
+  | drop => exact absurd trivial h
 
 /-- a write becomes applied only by the commit of an approval, looked up while it was waiting, that completes the
     count: with `n > 1` callbacks it is the approval after `n - 1` counted ones -/
@@ -435,6 +480,12 @@ theorem spec_applied_inv (n : Nat) (sp : Sp) (e : Ev) (w : Nat)
       split at h
       · simp [upd] at h
       · exact Or.inl h
+    | drop =>
+      simp only [specStep, dropW] at h
+      split at h
+      · cases h
+      · rename_i hx
+        exact Or.inl h
     | commit op a =>
       obtain ⟨x, hf⟩ := hc
       simp only [specStep, hf] at h
@@ -449,8 +500,58 @@ theorem spec_applied_inv (n : Nat) (sp : Sp) (e : Ev) (w : Nat)
           simp [hlt] at h
       | absent => simp only [hx] at h; exact Or.inl (hx ▸ h)
       | expiring => simp only [hx] at h; exact Or.inl (hx ▸ h)
+      | gone => simp only [hx] at h; exact Or.inl (hx ▸ h)
       | done o => simp only [hx] at h; exact Or.inl (hx ▸ h)
   · rw [spec_frame n sp e w hc] at h
     exact Or.inl h
+
+
+/-- a write whose connection was removed while it was waiting stays without outcome, whatever happens later -/
+theorem spec_gone_final (n : Nat) (sp : Sp) (e : Ev) (w : Nat) (h : sp.st w = .gone) :
+    (specStep n sp e).st w = .gone := by
+  cases e with
+  | arrive w' =>
+    simp only [specStep]
+    split
+    · rename_i hx
+      by_cases hw : w = w'
+      · subst hw; rw [h] at hx; cases hx
+      · simp [upd, hw, h]
+    · exact h
+  | lookup op w' => simp only [specStep]; split <;> exact h
+  | timeoutTake w' =>
+    simp only [specStep]
+    split
+    · rename_i k hx
+      by_cases hw : w = w'
+      · subst hw; rw [h] at hx; cases hx
+      · simp [upd, hw, h]
+    · exact h
+  | timeoutSend w' =>
+    simp only [specStep]
+    split
+    · rename_i hx
+      by_cases hw : w = w'
+      · subst hw; rw [h] at hx; cases hx
+      · simp [upd, hw, h]
+    · exact h
+  | drop => simp only [specStep, dropW, h]
+  | commit op a =>
+    simp only [specStep]
+    split
+    · exact h
+    · rename_i x w' hf
+      split
+      · rename_i k hx
+        by_cases hw : w = w'
+        · subst hw; rw [h] at hx; cases hx
+        · simp [upd, hw, h]
+      · exact h
+
+theorem spec_gone_forever (n : Nat) (evs : List Ev) (sp : Sp) (w : Nat) (h : sp.st w = .gone) :
+    (evs.foldl (specStep n) sp).st w = .gone := by
+  induction evs generalizing sp with
+  | nil => exact h
+  | cons e es ih => exact ih _ (spec_gone_final n sp e w h)
 
 end Spine.Appr
